@@ -498,7 +498,9 @@ func init() {
 			run("C07", "K6-new-contract-proof-height-passed", func(r *types.V2FileContractRenewal) { r.NewContract.ProofHeight = sc.child() - 1 }, true, false, "renewal into a contract whose proof height has passed")
 			run("C03", "A3-renewal-renter-sig", func(r *types.V2FileContractRenewal) { r.RenterSignature[w.tape.Choose(64)] ^= 1 << w.tape.Choose(8) }, false, false, "renewal with a renter signature bit flipped")
 			run("C03", "A3-renewal-host-sig", func(r *types.V2FileContractRenewal) { r.HostSignature[w.tape.Choose(64)] ^= 1 << w.tape.Choose(8) }, false, false, "renewal with a host signature bit flipped")
-			run("C03", "A3-renewal-new-contract-sig", func(r *types.V2FileContractRenewal) { r.NewContract.HostSignature[w.tape.Choose(64)] ^= 1 << w.tape.Choose(8) }, false, false, "renewal whose new contract has a host signature bit flipped")
+			run("C03", "A3-renewal-new-contract-sig", func(r *types.V2FileContractRenewal) {
+				r.NewContract.HostSignature[w.tape.Choose(64)] ^= 1 << w.tape.Choose(8)
+			}, false, false, "renewal whose new contract has a host signature bit flipped")
 			run("C03", "A3-renewal-field-after-signing", func(r *types.V2FileContractRenewal) {
 				r.FinalRenterOutput.Address[7] ^= 0x10
 			}, false, false, "renewal with the final renter address changed after signing")
